@@ -72,9 +72,18 @@ def gen_workload(rng: Rng) -> dict:
     meta: dict[str, dict] = {}
     enc_pool = ["ascii", "utf-8", "utf-8", "utf-8-sig", "utf-16-le-bom", "utf-16-be-bom", "cp1252"]
     cfg_enc = rng.choice(["autodetect", "autodetect", "autodetect", "explicit"])
+    big = rng.chance(0.12)
+    if big:
+        n = 1
     for i in range(n):
         name = "f%d.sql" % i
         base = rng.choice(corpus("ansi"))
+        if big:
+            # > 8192 characters of fixed content: exercises multi-chunk buffering
+            parts = []
+            while sum(len(p_) for p_ in parts) < rng.choice([8300, 9000, 17000]):
+                parts.append(rng.choice(corpus("ansi")).rstrip("\n") + "\n;\n\n")
+            base = "".join(parts).rstrip("\n;") + "\n"
         text = base
         for _ in range(rng.randint(1, 3)):
             inj = rng.choice(sorted(FIXABLE))
@@ -98,8 +107,8 @@ def gen_workload(rng: Rng) -> dict:
         core["encoding"] = {"utf-16-le-bom": "utf-16", "utf-16-be-bom": "utf-16"}.get(e, e)
     files["proj/.sqlfluff"] = {"b64": b64(ini({"sqlfluff": core})), "mode": 0o644}
     knobs = {
-        "bufsize": rng.choice([7, 16, 64, 8192]),
-        "rawmax": rng.choice([0, 0, 5, 17, 64]),
+        "bufsize": rng.choice([7, 16, 64, 8192]) if not big else rng.choice([8192, 4096, 1000]),
+        "rawmax": rng.choice([0, 0, 5, 17, 64]) if not big else rng.choice([0, 0, 3000]),
         "fsync_persists_dirent": rng.chance(0.5),
         "journal_reads": True,
     }
@@ -396,6 +405,10 @@ def run_one(ctx: Any, seed: int, tier: str, replay: Optional[dict] = None) -> di
                     v["replay"] = {"level": "A", "world": world, "target": rel, "plan": [], "tier": tier}
                     violations.append(v)
                 plans = single_faults(trace, frng)
+                if len(plans) > 700:
+                    # very long traces (big files / tiny raw writes): sample, do not enumerate
+                    stats["plans_sampled_not_enumerated"] += 1
+                    plans = frng.sample(plans, 700)
                 if not samples:
                     samples.append(
                         {
